@@ -159,8 +159,12 @@ type Env struct {
 	trees map[string]*Branch
 	// sent[i] is the checkpoint bytes submitted by op i.
 	sent [][]byte
-	// outs[i] is what the target returned for op i.
+	// outs[i] is what the target returned for op i (or what a plant op stored).
 	outs [][]byte
+	// outOK[i]: outs[i] is known to be an authentic checkpoint of log outLog[i] (the
+	// cosigned result of an accepted update, or a planted state)
+	outOK  map[int]bool
+	outLog map[int]int
 	// okProofs are proofs of accepted updates (for the replay proof kind).
 	okProofs [][][]byte
 }
@@ -243,6 +247,13 @@ func (e *Env) markSigned(label, text string) {
 		e.Signed[label] = m
 	}
 	m[text] = true
+}
+
+func (e *Env) noteOut(i int, ok bool, logIdx int) {
+	if e.outOK == nil {
+		e.outOK, e.outLog = map[int]bool{}, map[int]int{}
+	}
+	e.outOK[i], e.outLog[i] = ok, logIdx
 }
 
 // SignedByLog reports whether the harness ever signed text with the key (material and
@@ -603,12 +614,20 @@ func (e *Env) Resolve(idx int, op Op, held Held) Req {
 	cs := op.Cp
 	if cs.Replay > 0 && cs.Replay-1 < len(e.sent) && cs.Replay-1 < idx {
 		r.Cp = e.sent[cs.Replay-1]
+		echoed := false
 		if cs.ReplayOut && cs.Replay-1 < len(e.outs) && len(e.outs[cs.Replay-1]) > 0 {
 			r.Cp = e.outs[cs.Replay-1]
+			echoed = e.outOK[cs.Replay-1] && e.outLog[cs.Replay-1] == r.LogIdx && r.LogIdx >= 0
 		}
 		h := e.ScanCheckpoint(r.Cp)
 		r.CpText, r.CpSize, r.CpRoot, r.CpBr = h.Text, h.Size, h.Root, h.Branch
 		r.Mutated = true // authenticity unknown to the resolver; oracles treat it as arbitrary bytes
+		if echoed && h.ParseOK {
+			// the witness's own cosigned output for this very log: authentic by construction
+			_, sigs, _ := SplitNote(r.Cp)
+			r.Mutated, r.Authentic = false, true
+			r.Plain = len(h.Root) == 32 && len(sigs) <= 90
+		}
 	} else {
 		br := curBranch
 		if cs.Branch >= 0 && cs.Branch < len(e.Branches) {
@@ -1102,7 +1121,6 @@ type RunOpts struct {
 // Exec plays the case's ops against t and returns the observations.
 func (e *Env) Exec(t Target, o RunOpts) ([]*Step, error) {
 	var steps []*Step
-	ctx := context.Background()
 	for i, op := range e.Case.Ops {
 		st := &Step{Index: i, Op: op}
 		id := UnknownLogID
@@ -1148,6 +1166,7 @@ func (e *Env) Exec(t Target, o RunOpts) ([]*Step, error) {
 				e.outs = append(e.outs, nil)
 			}
 			e.outs[i] = planted // so that a later op can replay exactly the stored bytes
+			e.noteOut(i, true, st.Req.LogIdx)
 			st.Verdict = "planted"
 			steps = append(steps, st)
 			continue
@@ -1155,6 +1174,10 @@ func (e *Env) Exec(t Target, o RunOpts) ([]*Step, error) {
 		armer, _ := t.(Armer)
 		if armer != nil {
 			armer.Arm(op.Faults)
+		}
+		ctx, cancelReq := context.WithCancel(context.Background())
+		if wt, ok := t.(WitnessTarget); ok && wt.IP != nil {
+			wt.IP.CancelRequest = cancelReq
 		}
 		st.Start = time.Now()
 		func() {
@@ -1171,6 +1194,13 @@ func (e *Env) Exec(t Target, o RunOpts) ([]*Step, error) {
 		if armer != nil {
 			st.Fired, st.Trace = armer.Disarm()
 		}
+		cancelReq()
+		for _, f := range st.Fired {
+			if strings.HasPrefix(f, "cancelctx@") {
+				time.Sleep(30 * time.Millisecond) // let anything the request abandoned finish before the state is read
+				break
+			}
+		}
 		if o.AfterUpdate != nil {
 			if err := o.AfterUpdate(e, t, st); err != nil {
 				steps = append(steps, st)
@@ -1184,6 +1214,7 @@ func (e *Env) Exec(t Target, o RunOpts) ([]*Step, error) {
 			e.outs = append(e.outs, nil)
 		}
 		e.outs[i] = st.Out
+		e.noteOut(i, st.Verdict == VAccepted && len(st.Out) > 0, st.Req.LogIdx)
 		if !o.NoSnapshots {
 			st.Post = e.TakeSnapshot(t)
 		}
